@@ -189,3 +189,5 @@ class C03(Check):
 
 
 CHECK = C03()
+# scope added in later rounds, kept in the evidence text
+CHECK.rule += " An empty line between the two records of the input (three width / buffer pairs). CLI: every sixth case also 'restaged' - an older version of the FASTA is indexed by a first invocation, the file is rewritten and FASTA, .fai and .agp are given the same mtime."
